@@ -5071,3 +5071,7 @@ mod tests {
         assert_eq!(read_batch, batch2);
     }
 }
+
+#[cfg(kani)]
+#[path = "/verif/kani/arrow-ipc/writer.rs"]
+mod verif_kani;
